@@ -418,7 +418,7 @@ structure GState (H : Hist) (B : Nat) (g : GNode) : Prop where
   run : ∃ fb fp, GInv H B fb fp g.n
   disk : DiskOK H B g.n.height g.n.hdrHeight g.n.db
 
-theorem gstate_fresh (H : Hist) {B : Nat} (hB : 1 < B) : GState H B { n := fresh H } :=
+theorem gstate_fresh (H : Hist) {B : Nat} (hB : 1 < B) : GState H B { n := fresh H, times := [0] } :=
   ⟨⟨0, 0, ginv_of_inv (inv_fresh H hB)⟩, Or.inl rfl⟩
 
 /-- a recovered node (empty write cache) is a state to continue from. -/
@@ -529,8 +529,10 @@ theorem gcRun_batches (H : Hist) (B : Nat) (cfg : GcCfg) (g : GNode) (old new : 
       match gcTarget cfg new old with
       | none => []
       | some tgt =>
-        if gcPagesTill B g.n.db tgt > 0 then [[W.trans (gcSel tgt gx)], [W.trans (dropPages (gcPagesTill B g.n.db tgt))]]
-        else [[W.trans (gcSel tgt gx)]] := by
+        -- the transfer logs are only collected when the target's timestamp is still cached (gcBlockTimes)
+        let gx' : Nat → Option Val → Option Val := if decide (tgt ∈ g.times) = true then gx else fun _ v => v
+        if gcPagesTill B g.n.db tgt > 0 then [[W.trans (gcSel tgt gx')], [W.trans (dropPages (gcPagesTill B g.n.db tgt))]]
+        else [[W.trans (gcSel tgt gx')]] := by
   unfold gcRun gcTarget
   simp only [hnew]
   by_cases h1 : new < cfg.mtb
@@ -574,15 +576,17 @@ theorem gstep_gcRun_ok {H : Hist} {B : Nat} (cfg : GcCfg) (hB : 1 < B) (hm : 0 <
           Nat.mul_le_mul_right _ (Nat.div_le_div_right (Nat.le_trans hbase (Nat.sub_le _ _)))
         generalize gcBase cfg new / cfg.gcp * cfg.gcp = tgt at htle htP hcond ⊢
         have ht1 : tgt + cfg.mtb ≤ new := by omega
+        generalize (if decide (tgt ∈ g.times) = true then gx else fun _ v => v) = gx'
+        generalize (if decide (tgt ∈ g.times) = true then tgt :: g.times.erase tgt else g.times) = times'
         -- transfer / MPT GC on the backend
-        have hi1 := ginv_gcsel hi tgt gx (by omega)
-        have hm1 := ginv_gcsel m3 tgt gx (by omega)
-        have hd1 : DiskOK H B g.n.height g.n.hdrHeight (gcSel tgt gx g.n.db) :=
-          Or.inr ⟨{ m with db := gcSel tgt gx m.db }, fbm, fpm, by simp [m1], m2, hm1, m4, m5⟩
+        have hi1 := ginv_gcsel hi tgt gx' (by omega)
+        have hm1 := ginv_gcsel m3 tgt gx' (by omega)
+        have hd1 : DiskOK H B g.n.height g.n.hdrHeight (gcSel tgt gx' g.n.db) :=
+          Or.inr ⟨{ m with db := gcSel tgt gx' m.db }, fbm, fpm, by simp [m1], m2, hm1, m4, m5⟩
         -- block removal into the write cache
         have hb2 : gcBlocksTarget B cfg.gcp new tgt ≤ storedCnt B g.n.hdrHeight :=
           gcBlocksTarget_le_stored (by omega) htP (Nat.le_trans hnh hi.le)
-        obtain ⟨fb2, hi2, hdb2, hh2, hhd2⟩ := ginv_gcBlocks (cfg := cfg) (g := { g with n := { g.n with db := gcSel tgt gx g.n.db } }) hi1 new tgt hb2
+        obtain ⟨fb2, hi2, hdb2, hh2, hhd2⟩ := ginv_gcBlocks (cfg := cfg) (g := { g with n := { g.n with db := gcSel tgt gx' g.n.db }, times := times' }) hi1 new tgt hb2
         generalize htl : gcPagesTill B g.n.db tgt = till
         split
         · rename_i htill
@@ -592,8 +596,8 @@ theorem gstep_gcRun_ok {H : Hist} {B : Nat} (cfg : GcCfg) (hB : 1 < B) (hm : 0 <
           have hbn : till + B + B ≤ storedCnt B g.n.hdrHeight := Nat.le_trans hbm (storedCnt_mono B m5)
           have hi3 := ginv_dropPages (by omega) hi2 till (by rw [hhd2]; exact hbn)
           have hm3 := ginv_dropPages (by omega) hm1 till hbm
-          have hd3 : DiskOK H B g.n.height g.n.hdrHeight (dropPages till (gcSel tgt gx g.n.db)) :=
-            Or.inr ⟨{ m with db := dropPages till (gcSel tgt gx m.db) }, fbm, _, by simp [m1], m2, hm3, m4, m5⟩
+          have hd3 : DiskOK H B g.n.height g.n.hdrHeight (dropPages till (gcSel tgt gx' g.n.db)) :=
+            Or.inr ⟨{ m with db := dropPages till (gcSel tgt gx' m.db) }, fbm, _, by simp [m1], m2, hm3, m4, m5⟩
           refine ⟨⟨⟨_, _, hi3⟩, ?_⟩, ?_, ?_, ?_, ?_⟩
           · show DiskOK H B _ _ (dropPages till _)
             rw [hdb2, hh2, hhd2]; exact hd3
